@@ -30,7 +30,7 @@ class LGen(solvecheck.Gen):
             kind = r.random()
             randsz = kind < randsz_p
             rand = randsz or kind < 0.8
-            n = 0 if randsz else r.choice([0, 1, 2, 3, 3, 4])
+            n = 0 if randsz else r.choice([0, 1, 2, 3, 3, 4, 5, 6])
             lo, hi = (-(1 << (w - 1)), (1 << (w - 1)) - 1) if s else (0, (1 << w) - 1)
             out.append({"name": "l%d" % i, "w": w, "s": s, "rand": rand, "randsz": randsz,
                         "init": [r.randint(lo, hi) for _ in range(n)]})
@@ -77,7 +77,17 @@ class LGen(solvecheck.Gen):
         if c < 0.4:
             return self.foreach(fs, ls, li)
         if c < 0.55:
-            return {"k": "expr", "e": B(r.choice(["eq", "le", "lt", "ge"]), {"k": "sum", "l": li}, I(r.randint(0, 3 * max(1, n))))}
+            # the comparand decides the width the sum is computed at: a 32-bit literal hides a sum term that is too
+            # narrow, a narrow field or sized literal does not
+            d = r.random()
+            if d < 0.4 and fs:
+                rhs = F(r.randrange(len(fs)))
+            elif d < 0.6:
+                wl = r.randint(2, 6)
+                rhs = {"k": "lit", "v": r.randint(0, (1 << wl) - 1), "s": False, "w": wl}
+            else:
+                rhs = I(r.randint(0, 3 * max(1, n)))
+            return {"k": "expr", "e": B(r.choice(["eq", "le", "lt", "ge", "gt"]), {"k": "sum", "l": li}, rhs)}
         if c < 0.68:
             es = [{"k": "lref", "l": li}]
             if fs and r.random() < 0.4:
